@@ -1,5 +1,6 @@
 import Ladim.Model.Output
 import Mathlib.Tactic.Linarith
+import Mathlib.Tactic.Ring
 import Mathlib.Data.List.Basic
 /-
 C07 — every scheduled output time is written, for any duration, period and file split.
@@ -22,27 +23,547 @@ def allTimes (fs : List VFile) : List Rat := fs.flatMap (·.time)
 def allCounts (fs : List VFile) : List Nat := fs.flatMap (·.count)
 def allPids (fs : List VFile) : List Nat := fs.flatMap (·.pid)
 
+/-! ### the schedule -/
+
+theorem fmod_eq_zero_iff (st period : Int) (hp : 1 ≤ period) :
+    Int.fmod st period = 0 ↔ period ∣ st := by
+  rw [Int.fmod_eq_emod_of_nonneg _ (by omega), Int.dvd_iff_emod_eq_zero]
+
 /-- the due steps are exactly the multiples of the period below `nsteps` -/
 theorem dueSteps_spec (nsteps period : Int) (hp : 1 ≤ period) (st : Int) :
     st ∈ dueSteps nsteps period ↔ 0 ≤ st ∧ st < nsteps ∧ period ∣ st := by
-  sorry
+  simp only [dueSteps, stepRange, List.mem_filter, List.mem_map, List.mem_range, beq_iff_eq,
+    fmod_eq_zero_iff _ _ hp]
+  constructor
+  · rintro ⟨⟨k, hk, rfl⟩, hd⟩
+    refine ⟨by omega, by omega, hd⟩
+  · rintro ⟨h0, h1, hd⟩
+    exact ⟨⟨st.toNat, by omega, by omega⟩, hd⟩
+
+/-- `c = -((-n).fdiv p)` is the ceiling of `n / p`: `(c - 1) p < n ≤ c p` -/
+theorem ceil_bounds (n p : Int) (hp : 1 ≤ p) :
+    (-((-n).fdiv p) - 1) * p < n ∧ n ≤ (-((-n).fdiv p)) * p := by
+  rw [Int.fdiv_eq_ediv_of_nonneg _ (by omega)]
+  have h1 := Int.ediv_mul_le (-n) (b := p) (by omega)
+  have h2 := Int.lt_ediv_add_one_mul_self (-n) (b := p) (by omega)
+  generalize (-n) / p = d at *
+  constructor
+  · have : (-d - 1) * p = -((d + 1) * p) := by ring
+    omega
+  · have : (-d) * p = -(d * p) := by ring
+    omega
+
+theorem ceil_unique (n p c c' : Int) (hp : 1 ≤ p) (h1 : (c - 1) * p < n) (h2 : n ≤ c * p)
+    (h1' : (c' - 1) * p < n) (h2' : n ≤ c' * p) : c = c' := by
+  have a : c - 1 < c' := lt_of_mul_lt_mul_right (lt_of_lt_of_le h1 h2') (by omega)
+  have b : c' - 1 < c := lt_of_mul_lt_mul_right (lt_of_lt_of_le h1' h2) (by omega)
+  omega
+
+theorem ceil_succ (n p : Int) (hp : 1 ≤ p) :
+    -((-(n + 1)).fdiv p) = -((-n).fdiv p) + (if p ∣ n then 1 else 0) := by
+  obtain ⟨a1, a2⟩ := ceil_bounds n p hp
+  obtain ⟨b1, b2⟩ := ceil_bounds (n + 1) p hp
+  generalize -((-n).fdiv p) = c at *
+  generalize -((-(n+1)).fdiv p) = c' at *
+  split_ifs with hd
+  · obtain ⟨k, rfl⟩ := hd
+    have e : k = c := by
+      apply ceil_unique (p * k) p k c hp _ _ a1 a2
+      · have : (k - 1) * p = p * k - p := by ring
+        omega
+      · have : k * p = p * k := by ring
+        omega
+    subst e
+    apply ceil_unique (p * k + 1) p _ _ hp b1 b2
+    · have : (k + 1 - 1) * p = p * k := by ring
+      omega
+    · have : (k + 1) * p = p * k + p := by ring
+      omega
+  · apply ceil_unique (n + 1) p _ _ hp b1 b2
+    · simp only [add_zero]; omega
+    · simp only [add_zero]
+      have : n ≠ c * p := fun h => hd ⟨c, by rw [h]; ring⟩
+      omega
+
+theorem dueSteps_length_nat (n : Nat) (period : Int) (hp : 1 ≤ period) :
+    ((dueSteps (n : Int) period).length : Int) = -((-(n : Int)).fdiv period) := by
+  induction n with
+  | zero => simp [dueSteps, stepRange, Int.fdiv]
+  | succ n ih =>
+    have : dueSteps ((n + 1 : Nat) : Int) period
+        = dueSteps n period ++ (if period ∣ (n : Int) then [(n : Int)] else []) := by
+      simp only [dueSteps, stepRange, Int.toNat_natCast, List.range_succ, List.map_append,
+        List.filter_append, List.map_cons, List.map_nil, List.filter_cons, List.filter_nil,
+        beq_iff_eq, fmod_eq_zero_iff _ _ hp, zero_add]
+    rw [this, List.length_append, Nat.cast_add, ih, Nat.cast_add, Nat.cast_one, ceil_succ _ _ hp]
+    split_ifs <;> simp
 
 /-- their number is the predicted number of records, `⌈nsteps / period⌉` -/
 theorem dueSteps_length (nsteps period : Int) (hn : 0 ≤ nsteps) (hp : 1 ≤ period) :
     ((dueSteps nsteps period).length : Int) = predictRecords nsteps period false := by
-  sorry
+  obtain ⟨n, rfl⟩ := Int.eq_ofNat_of_zero_le hn
+  rw [dueSteps_length_nat n period hp]
+  simp [predictRecords]
+
+/-! ### the invariant of the write loop -/
+
+/-- the record appended to the current file by `write` -/
+def addRec (l : Layout) (f : VFile) (s : Snapshot) : VFile :=
+  match l with
+  | .sparse =>
+    { f with time := f.time ++ [s.time], count := f.count ++ [s.pid.length],
+             pid := f.pid ++ s.pid, inst := appendCols f.inst s.cols }
+  | .dense =>
+    { f with time := f.time ++ [s.time],
+             dense := f.dense ++ [s.cols.map (fun (n, c) =>
+                (n, (c.zip s.alive).map (fun (v, a) => if a then some v else none)))] }
+
+def finFile (f : VFile) (s : Snapshot) : VFile :=
+  { f with pvarN := some s.npid,
+           pvars := s.pvars.map (fun (n, c) => (n, c.take s.npid)), closed := true }
+
+def licOf (o : Out) (s : Snapshot) : Nat :=
+  match o.layout with
+  | .sparse => o.localInstanceCount + s.pid.length
+  | .dense => o.localInstanceCount
+
+@[simp] theorem addRec_time (l f s) : (addRec l f s).time = f.time ++ [s.time] := by
+  cases l <;> rfl
+@[simp] theorem addRec_name (l f s) : (addRec l f s).name = f.name := by cases l <;> rfl
+@[simp] theorem addRec_closed (l f s) : (addRec l f s).closed = f.closed := by cases l <;> rfl
+@[simp] theorem addRec_pvarN (l f s) : (addRec l f s).pvarN = f.pvarN := by cases l <;> rfl
+theorem addRec_count (f s) : (addRec .sparse f s).count = f.count ++ [s.pid.length] := rfl
+theorem addRec_pid (f s) : (addRec .sparse f s).pid = f.pid ++ s.pid := rfl
+theorem addRec_count_dense (f s) : (addRec .dense f s).count = f.count := rfl
+theorem addRec_pid_dense (f s) : (addRec .dense f s).pid = f.pid := rfl
+
+theorem write_eq (o : Out) (s : Snapshot) : o.write s =
+    if o.cur.closed then .error .runtimeError else
+    if o.localRecordCount + 1 = o.localNumRecords then
+      if o.recordCount + 1 < o.numRecords then
+        if o.multifile then
+          .ok { o with recordCount := o.recordCount + 1, localRecordCount := 0,
+                       localInstanceCount := 0,
+                       localNumRecords := localNum o.numrec o.numRecords (o.recordCount + 1),
+                       cur := emptyFile (genName o.stem o.suffix o.fileNo),
+                       fileNo := o.fileNo + 1,
+                       done := o.done ++ [finFile (addRec o.layout o.cur s) s] }
+        else .error .other
+      else
+        .ok { o with recordCount := o.recordCount + 1,
+                     localRecordCount := o.localRecordCount + 1,
+                     localInstanceCount := licOf o s,
+                     cur := finFile (addRec o.layout o.cur s) s }
+    else
+      .ok { o with recordCount := o.recordCount + 1,
+                   localRecordCount := o.localRecordCount + 1,
+                   localInstanceCount := licOf o s,
+                   cur := addRec o.layout o.cur s } := rfl
+
+/-- the fixed parameters of an output module -/
+structure Par where
+  layout : Layout
+  p : Int
+  R : Int
+  m : Int
+  mf : Bool
+  stem : String
+  suffix : String
+
+/-- invariant of the write loop after the snapshots `W` have been written -/
+structure Inv (P : Par) (o : Out) (W : List Snapshot) : Prop where
+  layout : o.layout = P.layout
+  period : o.periodStep = P.p
+  numRecords : o.numRecords = P.R
+  numrec : o.numrec = P.m
+  multifile : o.multifile = P.mf
+  stem : o.stem = P.stem
+  suffix : o.suffix = P.suffix
+  rc : o.recordCount = W.length
+  lrc_nonneg : 0 ≤ o.localRecordCount
+  lrc_le : o.localRecordCount ≤ P.m
+  lrc_le_rc : o.localRecordCount ≤ o.recordCount
+  lnum : o.localNumRecords = min P.m (P.R - (o.recordCount - o.localRecordCount))
+  curLen : (o.cur.time.length : Int) = o.localRecordCount
+  doneLen : ∀ f ∈ o.done, (f.time.length : Int) = P.m ∧ f.closed = true ∧ f.pvarN.isSome = true
+  open_ : o.recordCount < P.R → o.localRecordCount < o.localNumRecords ∧ o.cur.closed = false
+  fin : o.recordCount = P.R → 0 < o.recordCount →
+    0 < o.localRecordCount ∧ o.cur.closed = true ∧ o.cur.pvarN.isSome = true
+  multi : P.mf = true → o.fileNo = o.done.length + 1 ∧
+    o.done.map (·.name) = (List.range o.done.length).map (genName P.stem P.suffix) ∧
+    o.cur.name = genName P.stem P.suffix o.done.length
+  single : P.mf = false → o.done = [] ∧ o.cur.name = P.stem ++ P.suffix ∧
+    o.recordCount = o.localRecordCount
+  times : allTimes (o.done ++ [o.cur]) = W.map (·.time)
+  counts : P.layout = .sparse →
+    allCounts (o.done ++ [o.cur]) = W.map (·.pid.length) ∧
+    allPids (o.done ++ [o.cur]) = W.flatMap (·.pid)
+  dense : P.layout = .dense → allCounts (o.done ++ [o.cur]) = [] ∧ allPids (o.done ++ [o.cur]) = []
+
+/-- one `write` below the predicted number of records keeps the invariant; the only possible
+    failure is the single-file limit (`numrec' = 999999 < numRecords`) -/
+theorem write_step (P : Par) (hm : 1 ≤ P.m) (o : Out) (W : List Snapshot) (s : Snapshot)
+    (hI : Inv P o W) (hW : (W.length : Int) < P.R) :
+    (P.mf = false ∧ P.m < P.R ∧ o.write s = .error .other) ∨
+    ∃ o', o.write s = .ok o' ∧ Inv P o' (W ++ [s]) := by
+  have hrc := hI.rc
+  obtain ⟨hlt, hcl⟩ := hI.open_ (by omega)
+  have hlnum := hI.lnum
+  have hnn := hI.lrc_nonneg
+  have hle := hI.lrc_le
+  have hcur := hI.curLen
+  have hR := hI.numRecords
+  have hmm := hI.numrec
+  have htimes := hI.times
+  simp only [allTimes, List.flatMap_append, List.flatMap_cons, List.flatMap_nil,
+    List.append_nil] at htimes
+  have hcounts : P.layout = .sparse →
+      List.flatMap (·.count) o.done ++ o.cur.count = W.map (·.pid.length) ∧
+      List.flatMap (·.pid) o.done ++ o.cur.pid = W.flatMap (·.pid) := by
+    intro hs
+    have := hI.counts hs
+    simpa only [allCounts, allPids, List.flatMap_append, List.flatMap_cons, List.flatMap_nil,
+      List.append_nil] using this
+  have hdense : P.layout = .dense →
+      List.flatMap (·.count) o.done ++ o.cur.count = [] ∧
+      List.flatMap (·.pid) o.done ++ o.cur.pid = [] := by
+    intro hs
+    have := hI.dense hs
+    simpa only [allCounts, allPids, List.flatMap_append, List.flatMap_cons, List.flatMap_nil,
+      List.append_nil] using this
+  have hlerc := hI.lrc_le_rc
+  rw [write_eq]
+  simp only [hcl, Bool.false_eq_true, if_false]
+  by_cases hfill : o.localRecordCount + 1 = o.localNumRecords
+  · simp only [hfill, if_true]
+    by_cases hmore : o.recordCount + 1 < o.numRecords
+    · simp only [hmore, if_true]
+      cases hmf : o.multifile
+      · left
+        have hmf' : P.mf = false := by rw [← hI.multifile, hmf]
+        obtain ⟨-, -, h3⟩ := hI.single hmf'
+        refine ⟨hmf', by omega, by simp⟩
+      · right
+        have hmf' : P.mf = true := by rw [← hI.multifile, hmf]
+        obtain ⟨h1, h2, h3⟩ := hI.multi hmf'
+        refine ⟨_, rfl, ?_⟩
+        exact
+          { layout := hI.layout
+            period := hI.period
+            numRecords := hI.numRecords
+            numrec := hI.numrec
+            multifile := hmf'.symm
+            stem := hI.stem
+            suffix := hI.suffix
+            rc := by simp; omega
+            lrc_nonneg := by simp
+            lrc_le := by simp only []; omega
+            lrc_le_rc := by simp only []; omega
+            lnum := by simp only [localNum]; omega
+            curLen := by simp [emptyFile]
+            doneLen := by
+              intro f hf
+              rcases List.mem_append.1 hf with hf | hf
+              · exact hI.doneLen f hf
+              · simp only [List.mem_singleton] at hf
+                subst hf
+                simp [finFile]
+                omega
+            open_ := by
+              intro _
+              simp only [localNum, emptyFile]
+              refine ⟨by omega, trivial⟩
+            fin := by intro h; simp only [] at h; omega
+            multi := by
+              intro _
+              refine ⟨by simp [h1], ?_, by simp [hI.stem, hI.suffix, h1, emptyFile]⟩
+              simp [List.range_succ, h2, finFile, h3]
+            single := by intro h; rw [hmf'] at h; cases h
+            times := by
+              simp [allTimes, finFile, emptyFile, List.flatMap_append, ← htimes]
+            counts := by
+              intro hs
+              obtain ⟨c1, c2⟩ := hcounts hs
+              rw [hI.layout, hs]
+              simp [allCounts, allPids, finFile, emptyFile, List.flatMap_append, addRec_count,
+                addRec_pid, ← c1, ← c2]
+            dense := by
+              intro hs
+              obtain ⟨c1, c2⟩ := hdense hs
+              rw [hI.layout, hs]
+              simp only [List.append_eq_nil_iff] at c1 c2
+              simp [allCounts, allPids, finFile, emptyFile, List.flatMap_append,
+                addRec_count_dense, addRec_pid_dense, c1, c2] }
+    · simp only [hmore, if_false]
+      right
+      refine ⟨_, rfl, ?_⟩
+      exact
+        { layout := hI.layout
+          period := hI.period
+          numRecords := hI.numRecords
+          numrec := hI.numrec
+          multifile := hI.multifile
+          stem := hI.stem
+          suffix := hI.suffix
+          rc := by simp; omega
+          lrc_nonneg := by simp only []; omega
+          lrc_le := by simp only []; omega
+          lrc_le_rc := by simp only []; omega
+          lnum := by simp only []; omega
+          curLen := by simp [finFile]; omega
+          doneLen := hI.doneLen
+          open_ := by intro h; simp only [] at h; omega
+          fin := by
+            intro _ _
+            refine ⟨by simp only []; omega, rfl, rfl⟩
+          multi := by
+            intro h
+            obtain ⟨h1, h2, h3⟩ := hI.multi h
+            exact ⟨h1, h2, by simp [finFile, h3]⟩
+          single := by
+            intro h
+            obtain ⟨h1, h2, h3⟩ := hI.single h
+            exact ⟨h1, by simp [finFile, h2], by simp only []; omega⟩
+          times := by
+            simp [allTimes, finFile, List.flatMap_append, ← htimes]
+          counts := by
+            intro hs
+            obtain ⟨c1, c2⟩ := hcounts hs
+            rw [hI.layout, hs]
+            simp [allCounts, allPids, finFile, List.flatMap_append, addRec_count,
+              addRec_pid, ← c1, ← c2]
+          dense := by
+            intro hs
+            obtain ⟨c1, c2⟩ := hdense hs
+            rw [hI.layout, hs]
+            simp only [List.append_eq_nil_iff] at c1 c2
+            simp [allCounts, allPids, finFile, List.flatMap_append,
+              addRec_count_dense, addRec_pid_dense, c1, c2] }
+  · simp only [hfill, if_false]
+    right
+    refine ⟨_, rfl, ?_⟩
+    exact
+      { layout := hI.layout
+        period := hI.period
+        numRecords := hI.numRecords
+        numrec := hI.numrec
+        multifile := hI.multifile
+        stem := hI.stem
+        suffix := hI.suffix
+        rc := by simp; omega
+        lrc_nonneg := by simp only []; omega
+        lrc_le := by simp only []; omega
+        lrc_le_rc := by simp only []; omega
+        lnum := by simp only []; omega
+        curLen := by simp; omega
+        doneLen := hI.doneLen
+        open_ := by
+          intro h; simp only [addRec_closed] at h ⊢; refine ⟨by omega, hcl⟩
+        fin := by intro h1 h2; simp only [] at h1 h2; exfalso; omega
+        multi := by
+          intro h
+          obtain ⟨h1, h2, h3⟩ := hI.multi h
+          exact ⟨h1, h2, by simp [h3]⟩
+        single := by
+          intro h
+          obtain ⟨h1, h2, h3⟩ := hI.single h
+          exact ⟨h1, by simp [h2], by simp only []; omega⟩
+        times := by
+          simp [allTimes, List.flatMap_append, ← htimes]
+        counts := by
+          intro hs
+          obtain ⟨c1, c2⟩ := hcounts hs
+          rw [hI.layout, hs]
+          simp [allCounts, allPids, List.flatMap_append, addRec_count,
+            addRec_pid, ← c1, ← c2]
+        dense := by
+          intro hs
+          obtain ⟨c1, c2⟩ := hdense hs
+          rw [hI.layout, hs]
+          simp only [List.append_eq_nil_iff] at c1 c2
+          simp [allCounts, allPids, List.flatMap_append,
+            addRec_count_dense, addRec_pid_dense, c1, c2] }
+
+/-! ### the loop -/
+
+theorem run_inv (P : Par) (hm : 1 ≤ P.m) (snap : Int → Snapshot) (steps : List Int) :
+    ∀ (o : Out) (W : List Snapshot), Inv P o W →
+    (W.length : Int) + ((steps.filter (fun st => Int.fmod st P.p == 0)).length : Int) ≤ P.R →
+    (P.mf = false ∧ P.m < P.R ∧ ∃ e, runSteps o snap steps = .error e) ∨
+    ∃ o', runSteps o snap steps = .ok o' ∧
+      Inv P o' (W ++ (steps.filter (fun st => Int.fmod st P.p == 0)).map snap) := by
+  induction steps with
+  | nil => intro o W hI _; right; exact ⟨o, rfl, by simpa using hI⟩
+  | cons st rest ih =>
+    intro o W hI hlen
+    unfold runSteps
+    simp only [Out.due, hI.period]
+    by_cases hd : (Int.fmod st P.p == 0) = true
+    · simp only [List.filter_cons, hd, if_true, List.length_cons, List.map_cons, Nat.cast_add,
+        Nat.cast_one] at hlen ⊢
+      rcases write_step P hm o W (snap st) hI (by omega) with ⟨h1, h2, h3⟩ | ⟨o', h1, h2⟩
+      · left; exact ⟨h1, h2, _, by rw [h3]⟩
+      · rw [h1]
+        simp only []
+        rcases ih o' (W ++ [snap st]) h2 (by simp only [List.length_append, List.length_singleton]; omega)
+          with h | ⟨o'', h3, h4⟩
+        · left; exact h
+        · right; exact ⟨o'', h3, by simpa using h4⟩
+    · simp only [List.filter_cons, hd, Bool.false_eq_true, if_false] at hlen ⊢
+      exact ih o W hI hlen
+
+/-- the parameters of a run started by `init` -/
+def parOf (layout : Layout) (period R numrec : Int) (stem suffix : String) : Par :=
+  { layout := layout, p := period, R := R, m := if numrec != 0 then numrec else 999999,
+    mf := numrec != 0, stem := stem, suffix := suffix }
+
+theorem parOf_m_pos (layout : Layout) (period R numrec : Int) (stem suffix : String)
+    (hr : 0 ≤ numrec) : 1 ≤ (parOf layout period R numrec stem suffix).m := by
+  simp only [parOf, bne_iff_ne, ne_eq]
+  split_ifs <;> omega
+
+theorem init_inv (layout : Layout) (period R numrec : Int) (stem suffix : String)
+    (_hR : 0 ≤ R) (hr : 0 ≤ numrec) :
+    Inv (parOf layout period R numrec stem suffix) (init layout period R numrec stem suffix) [] := by
+  have hm := parOf_m_pos layout period R numrec stem suffix hr
+  exact
+    { layout := rfl
+      period := rfl
+      numRecords := rfl
+      numrec := rfl
+      multifile := rfl
+      stem := rfl
+      suffix := rfl
+      rc := rfl
+      lrc_nonneg := le_refl _
+      lrc_le := by simp only [init]; omega
+      lrc_le_rc := le_refl _
+      lnum := by simp [init, parOf, localNum]
+      curLen := by simp [init, emptyFile]
+      doneLen := by simp [init]
+      open_ := by
+        intro h
+        simp only [init, parOf, localNum] at h hm ⊢
+        refine ⟨by omega, ?_⟩
+        simp [emptyFile]
+      fin := by intro _ h; simp [init] at h
+      multi := by
+        intro h
+        simp only [parOf] at h
+        simp [init, parOf, h, emptyFile]
+      single := by
+        intro h
+        simp only [parOf] at h
+        simp only [bne_eq_false_iff_eq] at h
+        simp [init, parOf, h, emptyFile]
+      times := by simp [init, allTimes, emptyFile]
+      counts := by intro _; simp [init, allCounts, allPids, emptyFile]
+      dense := by intro _; simp [init, allCounts, allPids, emptyFile] }
+
+theorem predict_nonneg (nsteps period : Int) (hn : 0 ≤ nsteps) (hp : 1 ≤ period) :
+    0 ≤ predictRecords nsteps period false := by
+  rw [← dueSteps_length nsteps period hn hp]; omega
+
+/-- the state at the end of the loop of a cold run: either the single-file limit of 999999
+    records is hit (the run fails), or the loop ends normally in a state satisfying the
+    invariant for the full list of due steps -/
+theorem coldRun_inv (layout : Layout) (nsteps period numrec : Int) (hn : 0 ≤ nsteps)
+    (hp : 1 ≤ period) (hr : 0 ≤ numrec) (stem suffix : String) (snap : Int → Snapshot) :
+    (numrec = 0 ∧ 999999 < predictRecords nsteps period false ∧
+      ∃ e, coldRun layout nsteps period numrec stem suffix snap = .error e) ∨
+    ∃ o, coldRun layout nsteps period numrec stem suffix snap = .ok o.close.files ∧
+      Inv (parOf layout period (predictRecords nsteps period false) numrec stem suffix) o
+        ((dueSteps nsteps period).map snap) ∧
+      o.recordCount = predictRecords nsteps period false := by
+  set R := predictRecords nsteps period false with hRdef
+  have hR : 0 ≤ R := predict_nonneg nsteps period hn hp
+  have hlen := dueSteps_length nsteps period hn hp
+  have hm := parOf_m_pos layout period R numrec stem suffix hr
+  rcases run_inv (parOf layout period R numrec stem suffix) hm snap (stepRange 0 nsteps.toNat)
+      (init layout period R numrec stem suffix) [] (init_inv layout period R numrec stem suffix hR hr)
+      (by
+        have : (List.filter (fun st => Int.fmod st period == 0) (stepRange 0 nsteps.toNat))
+            = dueSteps nsteps period := rfl
+        simp only [parOf, this, List.length_nil]
+        omega)
+    with ⟨h1, h2, e, h3⟩ | ⟨o, h1, h2⟩
+  · left
+    simp only [parOf, bne_eq_false_iff_eq] at h1 h2
+    subst h1
+    simp only [bne_self_eq_false, Bool.false_eq_true, if_false] at h2
+    refine ⟨rfl, h2, e, ?_⟩
+    simp only [coldRun, ← hRdef, h3]
+  · right
+    refine ⟨o, ?_, h2, ?_⟩
+    · simp only [coldRun, ← hRdef, h1]
+    · have := h2.rc
+      simp only [List.nil_append, List.length_map] at this
+      have e : (List.filter (fun st => Int.fmod st
+          (parOf layout period R numrec stem suffix).p == 0) (stepRange 0 nsteps.toNat))
+            = dueSteps nsteps period := rfl
+      rw [e] at this
+      omega
+
+/-! ### the property theorems -/
+
+theorem close_files (o : Out) : o.close.files = o.done ++ [{ o.cur with closed := true }] := rfl
+
+theorem predict_pos (nsteps period : Int) (hn : 0 < nsteps) (hp : 1 ≤ period) :
+    0 < predictRecords nsteps period false := by
+  rw [← dueSteps_length nsteps period (le_of_lt hn) hp]
+  have : (0 : Int) ∈ dueSteps nsteps period :=
+    (dueSteps_spec nsteps period hp 0).2 ⟨le_refl _, hn, dvd_zero _⟩
+  have := List.length_pos_of_mem this
+  omega
+
+/-- the records of a successful cold run, over all files in order -/
+theorem coldRun_records (layout : Layout) (nsteps period numrec : Int) (hn : 0 ≤ nsteps)
+    (hp : 1 ≤ period) (hr : 0 ≤ numrec) (stem suffix : String) (snap : Int → Snapshot)
+    (fs : List VFile) (h : coldRun layout nsteps period numrec stem suffix snap = .ok fs) :
+    allTimes fs = (dueSteps nsteps period).map (fun st => (snap st).time) ∧
+    allCounts fs = (if layout = .sparse then
+        (dueSteps nsteps period).map (fun st => (snap st).pid.length) else []) ∧
+    allPids fs = (if layout = .sparse then
+        (dueSteps nsteps period).flatMap (fun st => (snap st).pid) else []) := by
+  rcases coldRun_inv layout nsteps period numrec hn hp hr stem suffix snap
+    with ⟨-, -, e, h3⟩ | ⟨o, h1, hI, hrc⟩
+  · rw [h3] at h; cases h
+  · rw [h1] at h
+    obtain rfl := Except.ok.inj h
+    have ht := hI.times
+    have hc := hI.counts
+    have hd := hI.dense
+    simp only [allTimes, allCounts, allPids, List.flatMap_append, List.flatMap_cons,
+      List.flatMap_nil, List.append_nil, List.map_map, List.flatMap_map, parOf,
+      Function.comp_def] at ht hc hd
+    simp only [close_files, allTimes, allCounts, allPids, List.flatMap_append, List.flatMap_cons,
+      List.flatMap_nil, List.append_nil]
+    refine ⟨ht, ?_⟩
+    cases layout
+    · simpa using hc rfl
+    · simpa using hd rfl
 
 /-- **schedule_complete**: the run ends normally (no write to a closed file, no missing file
     name) and the records written, over all files in order, are exactly one per output step,
-    in order. -/
+    in order.  In single-file mode (`numrec = 0`) the modelled code sizes the file for 999999
+    records; a run with more output steps than that fails (hypothesis `hbig`). -/
 theorem schedule_complete (layout : Layout) (nsteps period numrec : Int) (hn : 0 ≤ nsteps)
-    (hp : 1 ≤ period) (hr : 0 ≤ numrec) (stem suffix : String) (snap : Int → Snapshot) :
+    (hp : 1 ≤ period) (hr : 0 ≤ numrec)
+    (hbig : numrec = 0 → predictRecords nsteps period false ≤ 999999)
+    (stem suffix : String) (snap : Int → Snapshot) :
     ∃ fs, coldRun layout nsteps period numrec stem suffix snap = .ok fs ∧
       allTimes fs = (dueSteps nsteps period).map (fun st => (snap st).time) ∧
       (layout = .sparse →
         allCounts fs = (dueSteps nsteps period).map (fun st => (snap st).pid.length) ∧
         allPids fs = (dueSteps nsteps period).flatMap (fun st => (snap st).pid)) := by
-  sorry
+  rcases coldRun_inv layout nsteps period numrec hn hp hr stem suffix snap
+    with ⟨h1, h2, -⟩ | ⟨o, h1, -, -⟩
+  · have := hbig h1; omega
+  · obtain ⟨a, b, c⟩ := coldRun_records layout nsteps period numrec hn hp hr stem suffix snap _ h1
+    refine ⟨_, h1, a, ?_⟩
+    intro hs
+    rw [if_pos hs] at b c
+    exact ⟨b, c⟩
 
 /-- **file_chunks**: with `numrec > 0` every file but the last holds exactly `numrec` records,
     the last at most `numrec`, and no file is empty (if anything was written at all); with
@@ -54,7 +575,47 @@ theorem file_chunks (layout : Layout) (nsteps period numrec : Int) (hn : 0 ≤ n
     (0 < numrec → (∀ f ∈ fs.dropLast, (f.time.length : Int) = numrec) ∧
                   (∀ f ∈ fs, (f.time.length : Int) ≤ numrec)) ∧
     (0 < nsteps → ∀ f ∈ fs, 0 < f.time.length) := by
-  sorry
+  rcases coldRun_inv layout nsteps period numrec hn hp hr stem suffix snap
+    with ⟨-, -, e, h3⟩ | ⟨o, h1, hI, hrc⟩
+  · rw [h3] at h; cases h
+  · rw [h1] at h
+    obtain rfl := Except.ok.inj h
+    rw [close_files]
+    have hmpos := parOf_m_pos layout period (predictRecords nsteps period false) numrec stem suffix hr
+    have hcur := hI.curLen
+    refine ⟨?_, ?_, ?_⟩
+    · intro h0
+      have := (hI.single (by simp [parOf, h0])).1
+      simp [this]
+    · intro hpos
+      have hm : (parOf layout period (predictRecords nsteps period false) numrec stem suffix).m
+          = numrec := by
+        simp only [parOf, bne_iff_ne, ne_eq]
+        rw [if_pos (by omega)]
+      have hdl := hI.doneLen
+      have hle := hI.lrc_le
+      rw [hm] at hdl hle
+      refine ⟨?_, ?_⟩
+      · rw [List.dropLast_concat]
+        intro f hf
+        exact (hdl f hf).1
+      · intro f hf
+        rcases List.mem_append.1 hf with hf | hf
+        · exact le_of_eq (hdl f hf).1
+        · simp only [List.mem_singleton] at hf
+          subst hf
+          simp only []
+          omega
+    · intro hpos f hf
+      have hRpos := predict_pos nsteps period hpos hp
+      rcases List.mem_append.1 hf with hf | hf
+      · have := (hI.doneLen f hf).1
+        omega
+      · simp only [List.mem_singleton] at hf
+        subst hf
+        have := (hI.fin hrc (by omega)).1
+        simp only []
+        omega
 
 /-- **all_closed**: at the end every file is closed, and every file that holds a record was
     finished with its particle variables written. -/
@@ -62,7 +623,24 @@ theorem all_closed (layout : Layout) (nsteps period numrec : Int) (hn : 0 ≤ ns
     (hp : 1 ≤ period) (hr : 0 ≤ numrec) (stem suffix : String) (snap : Int → Snapshot)
     (fs : List VFile) (h : coldRun layout nsteps period numrec stem suffix snap = .ok fs) :
     ∀ f ∈ fs, f.closed = true ∧ (0 < f.time.length → f.pvarN.isSome) := by
-  sorry
+  rcases coldRun_inv layout nsteps period numrec hn hp hr stem suffix snap
+    with ⟨-, -, e, h3⟩ | ⟨o, h1, hI, hrc⟩
+  · rw [h3] at h; cases h
+  · rw [h1] at h
+    obtain rfl := Except.ok.inj h
+    rw [close_files]
+    intro f hf
+    rcases List.mem_append.1 hf with hf | hf
+    · obtain ⟨-, a, b⟩ := hI.doneLen f hf
+      exact ⟨a, fun _ => b⟩
+    · simp only [List.mem_singleton] at hf
+      subst hf
+      refine ⟨rfl, ?_⟩
+      intro hpos
+      simp only [] at hpos ⊢
+      have := hI.curLen
+      have := hI.lrc_le_rc
+      exact (hI.fin hrc (by omega)).2.2
 
 /-- **names**: the files carry the generator's names in order (a single file keeps the given
     name). -/
@@ -71,7 +649,19 @@ theorem names (layout : Layout) (nsteps period numrec : Int) (hn : 0 ≤ nsteps)
     (fs : List VFile) (h : coldRun layout nsteps period numrec stem suffix snap = .ok fs) :
     fs.map (·.name) =
       if numrec = 0 then [stem ++ suffix] else (List.range fs.length).map (genName stem suffix) := by
-  sorry
+  rcases coldRun_inv layout nsteps period numrec hn hp hr stem suffix snap
+    with ⟨-, -, e, h3⟩ | ⟨o, h1, hI, hrc⟩
+  · rw [h3] at h; cases h
+  · rw [h1] at h
+    obtain rfl := Except.ok.inj h
+    rw [close_files]
+    split_ifs with h0
+    · obtain ⟨a, b, -⟩ := hI.single (by simp [parOf, h0])
+      simp only [parOf] at b
+      simp [a, b]
+    · obtain ⟨-, a, b⟩ := hI.multi (by simp [parOf, h0])
+      simp only [parOf] at a b
+      simp [List.range_succ, a, b]
 
 /-- **concat_eq_unsplit**: concatenating the split files gives the records of the unsplit run. -/
 theorem concat_eq_unsplit (layout : Layout) (nsteps period numrec : Int) (hn : 0 ≤ nsteps)
@@ -79,24 +669,30 @@ theorem concat_eq_unsplit (layout : Layout) (nsteps period numrec : Int) (hn : 0
     (fs fs0 : List VFile) (h : coldRun layout nsteps period numrec stem suffix snap = .ok fs)
     (h0 : coldRun layout nsteps period 0 stem suffix snap = .ok fs0) :
     allTimes fs = allTimes fs0 ∧ allCounts fs = allCounts fs0 ∧ allPids fs = allPids fs0 := by
-  sorry
+  obtain ⟨a, b, c⟩ := coldRun_records layout nsteps period numrec hn hp hr stem suffix snap fs h
+  obtain ⟨a0, b0, c0⟩ :=
+    coldRun_records layout nsteps period 0 hn hp (le_refl _) stem suffix snap fs0 h0
+  exact ⟨a.trans a0.symm, b.trans b0.symm, c.trans c0.symm⟩
 
 /-- the generator continues a numbered prototype, keeping its width -/
 theorem genName_numbered (base suffix : String) (n0 w k : Nat) (stem : String)
     (h : splitStem stem = some (base, n0, w)) :
     genName stem suffix k = base ++ "_" ++ padNat w (n0 + k) ++ suffix := by
-  sorry
+  simp only [genName, h]
 
 theorem genName_plain (stem suffix : String) (k : Nat) (h : splitStem stem = none) :
     genName stem suffix k = stem ++ "_" ++ padNat 3 k ++ suffix := by
-  sorry
+  simp only [genName, h]
 
 /-- why the pinned revision failed: with the floor prediction `nsteps / period` a run with
     `nsteps = 7`, `period = 2` writes to a closed file (kept as a witness of what the theorem
-    rules out) -/
-example : runSteps (init .sparse 2 (7 / 2) 0 "out" ".nc")
+    rules out): the run stops at step 6 with `RuntimeError`.  (`Except (Int × Refusal) Out` has
+    no decidable equality, so the outcome is matched instead of compared.) -/
+example : (match runSteps (init .sparse 2 (7 / 2) 0 "out" ".nc")
       (fun _ => { time := 0, pid := [], alive := [], cols := [], npid := 0, pvars := [] })
-      (stepRange 0 7) = .error (6, .runtimeError) := by decide
+      (stepRange 0 7) with
+    | .error (6, .runtimeError) => true
+    | _ => false) = true := by decide
 
 /-! non-vacuity -/
 example : (dueSteps 7 2) = [0, 2, 4, 6] := by decide
